@@ -865,8 +865,9 @@ class Evaluator:
             return minmax(kind, [l, r])
         # abs: a - b if a > b else b - a
         if b == l - r and o == r - l:
-            return Rat.atom(("abs", l - r)) if not less else Rat.atom(("abs", l - r)) * Rat.const(-1) if False else (
-                Rat.atom(("abs", l - r)) if not less else _neg_abs(l - r))
+            return abs_of(l - r) if not less else _neg_abs(l - r)
+        if b == r - l and o == l - r:
+            return abs_of(l - r) if less else _neg_abs(l - r)
         return None
 
     def num_alts(self, node, env, ctx):
